@@ -6,8 +6,9 @@
   translator view the same table in Python: protecting lock per field, unprotected pairs, judgements (printed in the evidence)
   detector        harness/race built with `go build -race` (binary cached per hash of the /repo sources): full-stack KeyGen + Sign
                   among 3 parties over an in-memory transport with one goroutine per message -- honest, duplicated / replayed /
-                  forged early traffic of one participant, two Sign sessions at once, loud and silent mode, API misuse of the
-                  known finding.  Every report is mapped onto the table by file:line: it must be a pair the table leaves
+                  forged early traffic of one participant, authentic early membership-sync traffic of a configured member
+                  dispatched from before each KeyGen / Sign call (64 configured members: scenario loud-earlysync), two Sign
+                  sessions at once, loud and silent mode, SetStoredData during Sign.  Every report is mapped onto the table by file:line: it must be a pair the table leaves
                   unprotected (otherwise the table is wrong: broken correspondence); a report that is not a known finding is a
                   VIOLATION with the report as replay.
 """
@@ -16,7 +17,7 @@ sys.path.insert(0, os.path.dirname(os.path.dirname(os.path.abspath(__file__))))
 import vlib
 
 HARNESS = os.path.join(vlib.VERIF, "harness", "race")
-QUICK = ["loud", "loud-dup", "loud-flood", "loud-flood-slowinit", "silent", "silent-dup-flood", "loud-api", "silent-api"]
+QUICK = ["loud", "loud-dup", "loud-flood", "loud-flood-slowinit", "loud-earlysync", "silent", "silent-dup-flood", "loud-api", "silent-api"]
 THOROUGH = QUICK + ["loud-dup-flood", "silent-dup", "silent-flood", "loud-dup-api"]
 
 
@@ -58,7 +59,16 @@ def build_race():
         with open(os.path.join(HARNESS, "go.sum"), "w") as f:
             f.write("\n".join(sorted(lines)) + "\n")
         tmp = exe + ".tmp%d" % os.getpid()
-        rc, out, err = vlib.sh(["go", "build", "-race", "-o", tmp, "."], cwd=HARNESS, env=vlib.GOENV, timeout=1800)
+        cmd = ["go", "build", "-race", "-o", tmp]
+        if getattr(vlib, "ALT", ""):    # VERIF_REPO=<copy>: same module, replace lines pointing at the copy
+            md = os.path.join(vlib.BUILD, "modfiles" + vlib.ALT)
+            os.makedirs(md, exist_ok=True)
+            with open(os.path.join(md, "race.mod"), "w") as f:
+                f.write(open(os.path.join(HARNESS, "go.mod")).read().replace("=> /repo", "=> " + vlib.REPO))
+            with open(os.path.join(md, "race.sum"), "w") as f:
+                f.write("\n".join(sorted(lines)) + "\n")
+            cmd.append("-modfile=" + os.path.join(md, "race.mod"))
+        rc, out, err = vlib.sh(cmd + ["."], cwd=HARNESS, env=vlib.GOENV, timeout=1800)
         if rc != 0:
             return None, out + err, True
         os.replace(tmp, exe)
@@ -131,11 +141,40 @@ def site_of(stack, repo):
     return None
 
 
-def classify(report, table, tr, repo):
+_REP = {}
+
+
+def _report(tr, table):
+    if id(table) not in _REP:
+        _REP[id(table)] = tr.loc_report(table)
+    return _REP[id(table)]
+
+
+def stateful_lit(stack, an):
+    """name of a function literal with hidden mutable state (translator: Unit.stateful) one of the stack's frames lies in"""
+    for fn, f, ln in stack["frames"]:
+        rp = os.path.realpath(f)
+        for u in an.units.values():
+            if u.get("stateful") and os.path.realpath(u["file"]) == rp and u["line"] <= ln <= u["end_line"]:
+                return u["name"]
+    return None
+
+
+def classify(report, table, tr, repo, an=None):
     """-> dict(cls, loc, pair, sig, a, b):  cls in unprotected | protected | unmapped"""
     sites = [site_of(st, repo) for st in report["stacks"]]
     if len(sites) != 2 or None in sites:
         return dict(cls="unmapped", why="a stack of the report has no frame in %s" % repo, sites=sites)
+    # both accesses inside a function literal with hidden mutable state (J-payload): the table knows such a value only by
+    # the field it is kept in -- the report corresponds to an unprotected <field>@payload location if the table has one
+    if an is not None:
+        lits = [stateful_lit(st, an) for st in report["stacks"]]
+        if lits[0] and lits[0] == lits[1]:
+            for loc, r in sorted(_report(tr, table).items()):
+                if loc.endswith("@payload") and not r["ok"] and r["pairs"]:
+                    a, b = r["pairs"][0]
+                    return dict(cls="unprotected", loc=loc, a=a, b=b, sites=sites, sig="%s|%s|%s" % (loc, a["fn"], b["fn"]),
+                                via="both accesses are inside the stateful function literal %s" % lits[0])
     cand = []
     for e1 in table:
         if (sites[0][0], sites[0][1]) not in [tuple(x) for x in e1["lines"]]:
@@ -177,7 +216,7 @@ def run(pid, tier, seed):
     chk = vlib.Check(pid, tier, seed)
     vlib.proof_stage(chk)
     tr = translator()
-    table, problems, notes, _ = tr.build(vlib.REPO)
+    table, problems, notes, an = tr.build(vlib.REPO)
     known = tr.known_sites()
     rep = tr.loc_report(table)
     if problems:
@@ -242,7 +281,7 @@ def run(pid, tier, seed):
             for r in parse_reports(se):
                 det["reports"] += 1
                 nrep += 1
-                c = classify(r, table, tr, vlib.REPO)
+                c = classify(r, table, tr, vlib.REPO, an)
                 det["by_class"][c["cls"]] += 1
                 head = "race detector, harness/race -seed %d -scenarios %s (scenario %s)\n" % (sd, r["scenario"], r["scenario"])
                 if c["cls"] == "unprotected":
@@ -285,6 +324,8 @@ def run(pid, tier, seed):
     chk.cov["locations_without_concurrent_write"] = sorted(l for l, r in rep.items() if r["ok"] and not r["lock"])
     chk.cov["unprotected_pairs"] = ["%s|%s|%s" % k for k in sorted(pairs)]
     chk.cov["known_sites_removed"] = [k["sig"] for k in known]
+    chk.cov["payload_fields"] = {l: w for l, w in sorted(an.payload.items())} if an is not None else None
+    chk.cov["stateful_function_literals"] = sorted(u["name"] for u in an.units.values() if u.get("stateful")) if an is not None else None
     chk.cov["judgements"] = tr.judgements()
     chk.cov["translator_notes"] = notes
     chk.cov["detector"] = det
